@@ -5,7 +5,7 @@
    the helper makes are small re-implementations of their documented behaviour
    (section 5 of DESIGN.md); the correspondence run compares them, through the real
    client and server, with the real file system. *)
-From PV Require Import Bytes.
+From PV Require Import Bytes C31_gen.
 Open Scope Z_scope.
 
 Record file := mkfile {
@@ -15,10 +15,11 @@ Record file := mkfile {
 Record attrs := mkattrs {
   a_flags : Z; a_size : Z; a_uid : Z; a_gid : Z; a_mode : Z; a_atime : Z; a_mtime : Z }.
 
-Definition FLAG_SIZE : Z := 1.
-Definition FLAG_UIDGID : Z := 2.
-Definition FLAG_PERMISSIONS : Z := 4.
-Definition FLAG_AMTIME : Z := 8.
+(* the flag bits are regenerated from paramiko/sftp_attr.py on every run (Gen/C31_gen.v) *)
+Definition FLAG_SIZE : Z := gen_FLAG_SIZE.
+Definition FLAG_UIDGID : Z := gen_FLAG_UIDGID.
+Definition FLAG_PERMISSIONS : Z := gen_FLAG_PERMISSIONS.
+Definition FLAG_AMTIME : Z := gen_FLAG_AMTIME.
 
 (* Python's `if attr._flags & attr.FLAG_X:` *)
 Definition has (a : attrs) (flag : Z) : bool := negb (Z.land (a_flags a) flag =? 0).
@@ -68,6 +69,11 @@ Definition step_size (now : Z) (a : attrs) (f : file) : file :=
 Definition set_file_attr (now : Z) (f : file) (a : attrs) : file :=
   step_size now a (step_utime a (step_chown a (step_chmod a f))).
 
+(* the steps above, as (flag tested, action code of gen/c31.py) in the order they are applied;
+   Proofs/C31_proofs.v shows this is the list regenerated from the source (gen_steps) *)
+Definition modelled_steps : list (Z * Z) :=
+  [(FLAG_PERMISSIONS, 1); (FLAG_UIDGID, 2); (FLAG_AMTIME, 3); (FLAG_SIZE, 4)].
+
 (* the size step as it was before the repair (open "w+"), kept to state what the
    oracle of the harness guards against *)
 Definition step_size_wplus (now : Z) (a : attrs) (f : file) : file :=
@@ -106,6 +112,62 @@ Definition req_chown (u g : Z) : attrs := mk_attrs None (Some (u, g)) None None.
 Definition req_utime (t1 t2 : Z) : attrs := mk_attrs None None None (Some (t1, t2)).
 Definition req_truncate (n : Z) : attrs := mk_attrs (Some n) None None None.
 
+(* ---- sequences of requests on one file, with other writers in between --------- *)
+(* each request is served on its own: the model of a sequence is the fold of the
+   per-request semantics; what happens to the file between two requests (a write through
+   the handle or by another process, an os.utime by somebody else) is an environment step *)
+
+(* pwrite(off, b): holes are zero filled *)
+Definition write_at (d : list Z) (off : Z) (b : list Z) : list Z :=
+  match b with
+  | [] => d
+  | _ => let o := Z.to_nat off in
+         firstn o d ++ repeat 0 (o - length d) ++ b ++ skipn (o + length b) d
+  end.
+
+(* a write at time `now`; `atime` is the access time observed afterwards *)
+Definition env_write (atime now : Z) (f : file) (off : Z) (b : list Z) : file :=
+  mkfile (write_at (f_data f) off b) (f_mode f) (f_uid f) (f_gid f) atime now.
+
+Inductive step :=
+  | SAttr (by_handle : bool) (now : Z) (size : option Z) (ids : option (Z * Z)) (mode : option Z)
+          (times : option (Z * Z))
+  | SWrite (atime now off : Z) (b : list Z)
+  | STouch (atime mtime : Z).
+
+Definition do_step (f : file) (s : step) : file :=
+  match s with
+  | SAttr h now size ids mode times =>
+      if h then fsetstat now f (mk_attrs size ids mode times)
+      else setstat now f (mk_attrs size ids mode times)
+  | SWrite atime now off b => env_write atime now f off b
+  | STouch t1 t2 => os_utime f t1 t2
+  end.
+
+(* the four single-purpose client calls and their os.* counterparts, for the sequence theorem *)
+Inductive op := OChmod (m : Z) | OChown (u g : Z) | OUtime (t1 t2 : Z) | OTruncate (now n : Z).
+Inductive event := EOp (by_handle : bool) (o : op) | EEnv (g : file -> file).
+
+Definition sftp_op (h : bool) (f : file) (o : op) : file :=
+  let send := if h then fsetstat else setstat in
+  match o with
+  | OChmod m => send 0 f (req_chmod m)
+  | OChown u g => send 0 f (req_chown u g)
+  | OUtime t1 t2 => send 0 f (req_utime t1 t2)
+  | OTruncate now n => send now f (req_truncate n)
+  end.
+Definition os_op (f : file) (o : op) : file :=
+  match o with
+  | OChmod m => os_chmod f m
+  | OChown u g => os_chown f u g
+  | OUtime t1 t2 => os_utime f t1 t2
+  | OTruncate now n => os_truncate now f n
+  end.
+Definition sftp_event (f : file) (e : event) : file :=
+  match e with EOp h o => sftp_op h f o | EEnv g => g f end.
+Definition os_event (f : file) (e : event) : file :=
+  match e with EOp _ o => os_op f o | EEnv g => g f end.
+
 (* ---- correspondence run -------------------------------------------------- *)
 Definition canon_file (f : file) : list Z :=
   [f_mode f; f_uid f; f_gid f; f_atime f; f_mtime f; Z.of_nat (length (f_data f))] ++ f_data f.
@@ -116,3 +178,16 @@ Definition run_set_attr
        (option Z * option (Z * Z) * option Z * option (Z * Z))) : list Z :=
   let '(now, (d, m, u, g, t1, t2), (size, ids, mode, times)) := c in
   canon_file (set_file_attr now (mkfile d m u g t1 t2) (mk_attrs size ids mode times)).
+
+Definition canon_stat (f : file) : list Z :=
+  [f_mode f; f_uid f; f_gid f; f_atime f; f_mtime f; Z.of_nat (length (f_data f))].
+
+(* the stat after every step, then the final bytes *)
+Fixpoint run_steps (f : file) (steps : list step) : list Z :=
+  match steps with
+  | [] => f_data f
+  | s :: r => let f' := do_step f s in canon_stat f' ++ run_steps f' r
+  end.
+
+Definition run_seq (c : (list Z * Z * Z * Z * Z * Z) * list step) : list Z :=
+  let '((d, m, u, g, t1, t2), steps) := c in run_steps (mkfile d m u g t1 t2) steps.
